@@ -290,6 +290,10 @@ class DescriptorTransaction(_TransactionBase):
                                      if tr_item.new is None and tr_item.old is not None]
             to_be_created_handles = [tr_item.new.Handle for tr_item in self.descriptor_updates.values()
                                      if tr_item.old is None and tr_item.new is not None]
+            # descriptors that are updated in this transaction get their new version (and are reported) once,
+            # by the update itself; they must not be incremented and reported again as parent of a child.
+            to_be_updated_handles = [tr_item.new.Handle for tr_item in self.descriptor_updates.values()
+                                     if tr_item.old is not None and tr_item.new is not None]
             # Remark 1:
             # handling only updated states here: If a descriptor is created, it can be assumed that the
             # application also creates the state in a transaction.
@@ -314,8 +318,9 @@ class DescriptorTransaction(_TransactionBase):
                     self._mdib.descriptions.add_object_no_lock(new_descriptor)
                     # increment DescriptorVersion if a child descriptor is added or deleted.
                     if new_descriptor.parent_handle is not None \
-                            and new_descriptor.parent_handle not in to_be_created_handles:
-                        # only update parent if it is not also created in this transaction
+                            and new_descriptor.parent_handle not in to_be_created_handles \
+                            and new_descriptor.parent_handle not in to_be_updated_handles:
+                        # only update parent if it is not also created or updated in this transaction
                         self._increment_parent_descriptor_version(proc, new_descriptor)
                     self._update_corresponding_state(new_descriptor)
                 elif new_descriptor is None:
@@ -328,8 +333,9 @@ class DescriptorTransaction(_TransactionBase):
                     proc.descr_deleted.extend([d.mk_copy() for d in all_descriptors])
                     # increment DescriptorVersion if a child descriptor is added or deleted.
                     if orig_descriptor.parent_handle is not None \
-                            and orig_descriptor.parent_handle not in to_be_deleted_handles:
-                        # only update parent if it is not also deleted in this transaction
+                            and orig_descriptor.parent_handle not in to_be_deleted_handles \
+                            and orig_descriptor.parent_handle not in to_be_updated_handles:
+                        # only update parent if it is not also deleted or updated in this transaction
                         self._increment_parent_descriptor_version(proc, orig_descriptor)
                 else:
                     # this is an update operation
